@@ -57,3 +57,20 @@ package common
 //@   property C19
 //@   requires spec != nil && spec.SLOTS_PER_EPOCH != 0 && spec.TARGET_COMMITTEE_SIZE != 0
 //@   ensures r == max(1, min(spec.MAX_COMMITTEES_PER_SLOT, activeValidators / spec.SLOTS_PER_EPOCH / spec.TARGET_COMMITTEE_SIZE))
+
+// ---------------------------------------------------------------- spec.go (C14)
+
+// The chained "<" comparisons of the implementation agree with the
+// specification's descending ">=" chain exactly when the fork epochs are
+// ordered; that is the documented domain (requires ordered).
+//@ func (spec *Spec) ForkVersion(slot) v
+//@   property C14
+//@   requires spec != nil && spec.SLOTS_PER_EPOCH != 0
+//@   requires ordered: spec.ALTAIR_FORK_EPOCH <= spec.BELLATRIX_FORK_EPOCH && spec.BELLATRIX_FORK_EPOCH <= spec.CAPELLA_FORK_EPOCH && spec.CAPELLA_FORK_EPOCH <= spec.DENEB_FORK_EPOCH && spec.DENEB_FORK_EPOCH <= spec.ELECTRA_FORK_EPOCH && spec.ELECTRA_FORK_EPOCH <= spec.FULU_FORK_EPOCH
+//@   ensures phase0: fork_idx(slot / spec.SLOTS_PER_EPOCH, spec.ALTAIR_FORK_EPOCH, spec.BELLATRIX_FORK_EPOCH, spec.CAPELLA_FORK_EPOCH, spec.DENEB_FORK_EPOCH, spec.ELECTRA_FORK_EPOCH, spec.FULU_FORK_EPOCH) == 0 ==> v == spec.GENESIS_FORK_VERSION
+//@   ensures altair: fork_idx(slot / spec.SLOTS_PER_EPOCH, spec.ALTAIR_FORK_EPOCH, spec.BELLATRIX_FORK_EPOCH, spec.CAPELLA_FORK_EPOCH, spec.DENEB_FORK_EPOCH, spec.ELECTRA_FORK_EPOCH, spec.FULU_FORK_EPOCH) == 1 ==> v == spec.ALTAIR_FORK_VERSION
+//@   ensures bellatrix: fork_idx(slot / spec.SLOTS_PER_EPOCH, spec.ALTAIR_FORK_EPOCH, spec.BELLATRIX_FORK_EPOCH, spec.CAPELLA_FORK_EPOCH, spec.DENEB_FORK_EPOCH, spec.ELECTRA_FORK_EPOCH, spec.FULU_FORK_EPOCH) == 2 ==> v == spec.BELLATRIX_FORK_VERSION
+//@   ensures capella: fork_idx(slot / spec.SLOTS_PER_EPOCH, spec.ALTAIR_FORK_EPOCH, spec.BELLATRIX_FORK_EPOCH, spec.CAPELLA_FORK_EPOCH, spec.DENEB_FORK_EPOCH, spec.ELECTRA_FORK_EPOCH, spec.FULU_FORK_EPOCH) == 3 ==> v == spec.CAPELLA_FORK_VERSION
+//@   ensures deneb: fork_idx(slot / spec.SLOTS_PER_EPOCH, spec.ALTAIR_FORK_EPOCH, spec.BELLATRIX_FORK_EPOCH, spec.CAPELLA_FORK_EPOCH, spec.DENEB_FORK_EPOCH, spec.ELECTRA_FORK_EPOCH, spec.FULU_FORK_EPOCH) == 4 ==> v == spec.DENEB_FORK_VERSION
+//@   ensures electra: fork_idx(slot / spec.SLOTS_PER_EPOCH, spec.ALTAIR_FORK_EPOCH, spec.BELLATRIX_FORK_EPOCH, spec.CAPELLA_FORK_EPOCH, spec.DENEB_FORK_EPOCH, spec.ELECTRA_FORK_EPOCH, spec.FULU_FORK_EPOCH) == 5 ==> v == spec.ELECTRA_FORK_VERSION
+//@   ensures fulu: fork_idx(slot / spec.SLOTS_PER_EPOCH, spec.ALTAIR_FORK_EPOCH, spec.BELLATRIX_FORK_EPOCH, spec.CAPELLA_FORK_EPOCH, spec.DENEB_FORK_EPOCH, spec.ELECTRA_FORK_EPOCH, spec.FULU_FORK_EPOCH) == 6 ==> v == spec.FULU_FORK_VERSION
